@@ -260,7 +260,7 @@ func c01R1(c *Ctx, id string) {
 			"bbolt.(*Tx).allocate": true, "bbolt.(*DB).allocate": true, "bbolt.(*Bucket).spill": true, "bbolt.(*node).spill": true,
 			"bbolt.(*Bucket).rebalance": true, "bbolt.(*node).rebalance": true, "bbolt.(*node).put": true, "bbolt.(*node).del": true,
 			"freelist.(*shared).Free": true, "freelist.(*shared).Write": true, "freelist.(*array).Allocate": true, "freelist.(*hashMap).Allocate": true,
-			"freelist.Interface.Free": true, "freelist.Interface.Write": true, "freelist.Interface.Allocate": true,
+			"freelist.Interface.Free": true, "freelist.Interface.Write": true, "freelist.ReadWriter.Write": true, "freelist.Interface.Allocate": true,
 			"bbolt.(*Tx).commitFreelist": true,
 		}
 		region := reach([]ssa.Instruction{write}, nil, func(in ssa.Instruction) bool { return in == closeC }, nil)
